@@ -155,7 +155,8 @@ class Excel:
     @classmethod
     def _get_suspicious_constructions(cls, value):
         value = str(value)
-        suspicious_constructions = re.findall(r'[a-zA-Z_\d]+\(.*?\)', value)
+        # an identifier (it does not start with a digit: 555(1234) calls nothing) immediately followed by an argument list
+        suspicious_constructions = re.findall(r'[a-zA-Z_][a-zA-Z_\d]*\(.*?\)', value)
         if suspicious_constructions:
             return [i for i in suspicious_constructions if not re.findall(r'[A-Z]+\(.*?\)', i)]
 
